@@ -130,3 +130,11 @@ impl<'a> Read for ChunkReader<'a> {
         Ok(n)
     }
 }
+
+/// Decode a case field through the *text* channel.  The harness never relies on
+/// `from_value` for the library's types: channel independence is C17's subject.
+pub fn via_text<T: serde::de::DeserializeOwned>(
+    v: &Value,
+) -> Result<T, serde_json::Error> {
+    serde_json::from_str(&serde_json::to_string(v)?)
+}
